@@ -94,7 +94,7 @@ func checkC11(cx *Ctx, r *Report) {
 		"Issuer = entityID: every Issuer of a protocol reply (login, SSO error, logout, attribute query) and the entityID of the metadata document have the single source IdentityProvider.GetEntityID(<the request's context>) = metadataEndpoint.Absolute(IssuerFromContext(ctx))",
 		"routes vs advertised locations: the composed table service -> endpoint -> handler extracted from getMetadata and GetRoutes equals {SingleSignOnService -> ssoHandleFunc, SingleLogoutService -> logoutHandleFunc, AttributeService -> attributeQueryHandleFunc}; advertised and routed endpoints are built by endpointConfigToEndpoints from the same configuration; Absolute (without URL override) and Relative both end in relativeEndpoint(path); routes carry no method/host matcher; the metadata route is metadataEndpoint.Relative()",
 		"one certificate: the KeyDescriptor, the certificate endpoint and every signing site take the certificate returned by GetResponseSigningKey",
-		"WantAuthnRequestsSigned: the advertised value is the configured one unchanged and enforcement reads the same field through a verified complete xs:boolean test",
+		"WantAuthnRequestsSigned: the advertised value is the configured one unchanged and enforcement reads the same field through a verified complete xs:boolean test; the verifiers the enforcement ends in report success only under a verification that succeeded (shared with C05)",
 	}
 	r.NotDec = []string{"well-formedness of the served XML (encoding/xml)", "behaviour behind path prefixes chosen by the embedding application"}
 	r.Assume = []string{"gorilla/mux routes requests whose path equals the registered path to the registered handler"}
@@ -283,6 +283,10 @@ func checkC11(cx *Ctx, r *Report) {
 		}
 	}
 	// --- WantAuthnRequestsSigned ---------------------------------------------------------------------------
+	// "refused" is what the verifiers do: with the flag set every request reaches one of them (C05 decides that part),
+	// and none of them reports success without a verification that succeeded - also not for a service provider that
+	// published no key
+	cx.checkVerifierDiscipline(r)
 	cx.checkXSBool(r, "R-XSBOOL", map[string]bool{"md.SPSSODescriptorType.AuthnRequestsSigned": true, "md.IDPSSODescriptorType.WantAuthnRequestsSigned": true, "provider.IdentityProviderConfig.WantAuthRequestsSigned": true})
 	for _, e := range []struct {
 		vf    *VFlow
